@@ -523,3 +523,8 @@ def grouping_form(t, top=True):
     if t[0] == "atom":
         return normal_form(t)
     return [t[0], *[grouping_form(c, False) for c in t[1:]]]
+
+
+def one_variable_atoms(t):
+    """every comparison is between one variable and one literal (the domain of the property statements)"""
+    return all(a[1][0] != a[3][0] for a in atoms_of(strip_parens(t)))
